@@ -7,7 +7,7 @@ import pepper
 
 ID = "C04"
 LEVEL = "proof"
-THEOREMS = ["C04_closure_exact_partial", "C04_eq_rep_least", "C04_wc_rep_least", "C04_wc_rep_none", "C04_same_rep_iff_connected", "C04_wc_rep_is_eq_rep_of_partner", "C04_strand_layout"]
+THEOREMS = ["C04_closure_exact_partial", "C04_eq_rep_least", "C04_wc_rep_least", "C04_wc_rep_none", "C04_same_rep_iff_connected", "C04_wc_rep_is_eq_rep_of_partner", "C04_strand_layout", "C04_template_clause", "C04_seeded_total"]
 TRUSTED = ["harness/pepper.py: generator/printer of PIL documents (compiler-emitted and hand-written style), and spec_arrays: the parity union-find oracle over the document's denotation used by the failing-input search",
            "PIL_parser's regular expressions are exercised with free spacing / comments / optional [..], not modelled"]
 ASSUMPTIONS = ["structure-oriented layout only for documents in which every strand occurs in some structure"]
@@ -90,8 +90,9 @@ def evaluate(docs, which=("C04",)):
                 if got[0] == "ok":
                     failures["C15"].append({"kind": "predicate", "key": "unsat-accepted:" + spec[1], "summary": "no assignment satisfies the document (%s) but get_constraints returns arrays (%s layout)" % (spec[1], lay), "replay": rep})
                 stats["nontrivial"].add(d["text"])
-            if mres[2 * i + j][0] == "ok" and mres[2 * i + j][4] != "T":
-                failures["C04"].append({"kind": "tie", "key": "graph-closed", "summary": "the seeded graph of the model has a link to an uninitialised node: hypothesis graph_closed of the theorems fails for this document", "replay": rep})
+            mr = mres[2 * i + j]
+            if (mr[0] == "ok" and mr[4] != "T") or (mr[0] == "over" and mr[1] != "T"):
+                failures["C04"].append({"kind": "tie", "key": "graph-ok", "summary": "hypothesis graph_ok of the theorems (links between initialised nodes, template table keyed by the nodes, templates are codes) fails on the graph the model seeds for this document", "replay": rep})
             # model vs implementation
             mm = m if m[0] == "ok" else ("rejected",)
             gg = got if got[0] == "ok" else ("rejected",)
